@@ -1,0 +1,28 @@
+//go:build verif
+// +build verif
+
+package backend
+
+import (
+	"sync/atomic"
+	"time"
+)
+
+var verifClock atomic.Value // func() time.Time
+
+// backendNow is the clock read by the fuse / health-check code. With the verif build tag
+// a test harness may substitute a virtual clock.
+func backendNow() time.Time {
+	if f, ok := verifClock.Load().(func() time.Time); ok && f != nil {
+		return f()
+	}
+	return time.Now()
+}
+
+// VerifSetClock installs (or, with nil, removes) the virtual clock.
+func VerifSetClock(f func() time.Time) {
+	if f == nil {
+		f = func() time.Time { return time.Now() }
+	}
+	verifClock.Store(f)
+}
